@@ -7,7 +7,7 @@ sys.path.insert(0, HERE)
 import run as st
 d_in = sys.argv[1]
 ids = sys.argv[2:] or [json.loads(l)['id'] for l in open(os.path.join(st.VERIF, 'properties.jsonl'))]
-for ch in sorted(glob.glob(os.path.join(d_in, 'change*.diff')) + glob.glob(os.path.join(d_in, 'patch.diff'))):
+for ch in sorted(glob.glob(os.path.join(d_in, 'change*.diff')) + glob.glob(os.path.join(d_in, 'patch.diff')) + glob.glob(os.path.join(d_in, 'refactor*.diff'))):
     d = st.scratch()
     try:
         subprocess.check_call(['git', 'init', '-q'], cwd=d)
